@@ -3,7 +3,7 @@
    Only statements here; models: DS/Waitlist.v, Conc/PopWait.v; proofs:
    DS/WaitlistProofs.v, Conc/PopWaitProofs.v. *)
 From Coq Require Import List ZArith Bool Arith.
-From ABT Require Import DS.Waitlist DS.WaitlistProofs Conc.PopWait Conc.PopWaitProofs.
+From ABT Require Import DS.Waitlist DS.WaitlistProofs Conc.PopWait Conc.PopWaitProofs Conc.PopWaitOrder.
 Import ListNotations.
 Local Open Scope Z_scope.
 
@@ -150,6 +150,55 @@ Theorem C19_popwait_progress : forall c p0 t0 acts s, NoDup p0 ->
   exists s', wstep c s = Some s'.
 Proof. exact popwait_progress. Qed.
 Print Assumptions C19_popwait_progress.
+
+(* FIFO order of a blocking pop that takes the head (fifo.c and fifo_wait.c
+   always; randws.c pool_pop_timedwait; randws.c pool_pop_wait without
+   POOL_CONTEXT_POP_TAIL — [head_cfg]): the unit it returns is the oldest one
+   nobody else has taken — every unit pushed before it went to another consumer
+   and none of them is still in the pool.  (The fast path popping something
+   other than the head, or a unit being overtaken while the waiter sleeps,
+   would contradict this.) *)
+Theorem C19_popwait_fifo_order : forall c p0 t0 acts s u, NoDup p0 -> head_cfg c ->
+  pw_run c (pw_init c p0 t0) acts = Some s -> pw_result s = Some (Some u) ->
+  exists pre post, pushed s = pre ++ u :: post /\
+    (forall v, In v pre -> In v (others s) /\ ~ In v (pool s)).
+Proof. exact popwait_fifo_order. Qed.
+Print Assumptions C19_popwait_fifo_order.
+
+(* An empty-handed return rests on an observation: at some instant during the
+   call the pool WAS empty (all three variants, either end). *)
+Theorem C19_popwait_null_saw_empty : forall c p0 t0 acts s,
+  pw_run c (pw_init c p0 t0) acts = Some s -> pw_result s = Some None ->
+  exists a1 a2 s1, acts = a1 ++ a2 /\ pw_run c (pw_init c p0 t0) a1 = Some s1 /\ pool s1 = [].
+Proof. exact popwait_null_saw_empty. Qed.
+Print Assumptions C19_popwait_null_saw_empty.
+
+(* Hence a blocking pop on a non-empty pool that no other consumer drains never
+   comes back with ABT_THREAD_NULL / ABT_UNIT_NULL, however short (or long
+   past) its deadline is and however the pushers and the clock interleave. *)
+Theorem C19_popwait_nonempty_never_null : forall c p0 t0 acts s, p0 <> [] -> no_other_pop acts ->
+  pw_run c (pw_init c p0 t0) acts = Some s -> pw_result s <> Some None.
+Proof. exact popwait_nonempty_never_null. Qed.
+Print Assumptions C19_popwait_nonempty_never_null.
+
+(* non-vacuity of the three: timedwait(abstime 5, long past at time 1000) on
+   [1;2;3]: another consumer takes 1, the waiter returns 2 — behind 1 in the
+   push order, 1 is with the other consumer; an empty-handed return after the
+   other consumer drained the pool has the empty instant in its history. *)
+Example C19_popwait_order_example :
+  let c := mkcfg VTimedWait false 5 in
+  head_cfg c /\
+  (match pw_run c (pw_init c [1;2;3]%nat 1000) [PW_W; PW_OtherPop; PW_Push 4; PW_W] with
+   | Some s => pw_result s = Some (Some 2%nat) /\ pushed s = [1;2;3;4]%nat /\
+               others s = [1%nat] /\ pool s = [3;4]%nat
+   | None => False end) /\
+  (match pw_run c (pw_init c [1%nat] 1000) [PW_W; PW_OtherPop; PW_W; PW_W; PW_W] with
+   | Some s => pw_result s = Some None /\ pool s = []
+   | None => False end) /\
+  (match pw_run c (pw_init c [1%nat] 1000) [PW_Tick 7; PW_W; PW_Push 2; PW_W] with
+   | Some s => pw_result s = Some (Some 1%nat) /\ no_other_pop [PW_Tick 7; PW_W; PW_Push 2; PW_W]
+   | None => False end).
+Proof. vm_compute. repeat split; try reflexivity; try (left; discriminate). Qed.
 
 (* non-vacuity: pop_wait(5) on an empty FIFO at time 1000; a unit is pushed
    while it sleeps and is returned; with no push it returns NULL once
